@@ -94,6 +94,16 @@ CLAIMED = {
              "closure under sums and Schur products are assumed lemmas applied to the proved formulas (PSD itself is bounded only); "
              "spatial dimension proved per listed value; change-point kernels are SE with d=1 in the proof layer",
         ref="3/C10"),
+    "C20": dict(
+        text="Proof: trapezium_full inverts the CDF of the linear density 1+dh(2t-1) on [0,1] and stays in [0,1] for all x in [0,1], "
+             "dh in [-1,1]\\{0}; the near-zero branch has CDF error <= dh^2; for every ascending grid and non-negative table the cell "
+             "probabilities handed to the generator are the masses of the piecewise-linear interpolant, the slope parameter is the "
+             "normalised slope of the drawn cell, every sample lies in its cell (hence in the grid range); Conditional evaluates the "
+             "posterior at the point with one coordinate replaced without mutating it; binary_search stays inside its bracket. "
+             "Bounded: intercepted generator on (non-)uniform grids, six posterior families for normalisation/coverage/match.",
+        note="trapezium_transform's mask dispatch, evaluate_conditional's adaptive search and Simpson normalisation are bounded only; "
+             "total positive mass lemma assumed; sqrt with defining axioms; grid sortedness for all pairs from consecutive (induction, assumed)",
+        ref="3/C20"),
     "C13": dict(
         text="Proof: for every sample length, column count and fraction, the interval returned by the real sample_hdi code has "
              "two sorted sample values L=floor(f*n) positions apart as end points (so it holds L+1 > f*n points), no window of "
